@@ -263,9 +263,15 @@ def main_check(prop, tier, seed):
         except OSError:
             pass
     ctx = Ctx(prop, tier, seed)
+    t0 = time.time()
     stage_build(ctx, prop)
+    t1 = time.time()
     stage_corr(ctx, prop)
+    t2 = time.time()
     prop.extra(ctx)
+    ctx.notes.append("stage wall: build+prove+audit %.1fs (includes waiting for the shared build lock), correspondence %.1fs, extra %.1fs"
+                     % (t1 - t0, t2 - t1, time.time() - t2))
+    core.log("[%s] %s" % (prop.id, ctx.notes[-1]))
     if (ctx.proof_breaks or ctx.corr_breaks) and not ctx.violations:
         # witness search: a larger, differently seeded run looking for a spec violation
         core.log("[%s] proof/correspondence broke; searching for a failing input" % prop.id)
